@@ -4,7 +4,7 @@
    the hand-written driver.  No Extract Constant. *)
 From Coq Require Extraction.
 From Coq Require Import ExtrOcamlBasic.
-From ASModel Require Import Base SetMatch SrcLoc Report PathRes Tokens Ast IR Expand Nodes Print Binders Values Sem Spec Shared Features Parser FrontEnd.
+From ASModel Require Import Base SetMatch SrcLoc Report PathRes Tokens Ast IR Expand Nodes Print Binders Values Sem Spec Shared Features Parser FrontEnd Display.
 From ASProofs Require Import SemP.
 Extraction Language OCaml.
 Set Extraction KeepSingleton.
@@ -18,4 +18,5 @@ Extraction "model.ml"
   Features.top_refs Features.has_regex Features.compiles_in Features.dispatch_eq Features.macro_regex Features.runtime_regex
   Shared.step Shared.run Shared.cache_get Shared.guard_step Shared.plain_flag Shared.styled
   FrontEnd.front_end_from Parser.counter_after Parser.fuel_for Parser.parse_top Base.N_to_string
+  Display.display Display.annotation_of
   Sem.exec Spec.frontier Values.debug SemP.pat_ok Report.node_display.
